@@ -5,7 +5,6 @@ package main
 
 import (
 	"fmt"
-	"sort"
 	"strings"
 )
 
@@ -324,11 +323,13 @@ func (s *Script) header() string {
 	var b strings.Builder
 	b.WriteString("(set-option :produce-models true)\n(set-logic ALL)\n")
 	if s.nativeStr {
-		b.WriteString("(declare-sort Ref 0)\n(define-sort Str () String)\n(declare-sort Fn 0)\n(declare-sort Flt 0)\n(declare-sort Any 0)\n")
-		b.WriteString("(declare-fun nil_ref () Ref)\n(declare-fun nil_fn () Fn)\n(define-fun str_empty () Str \"\")\n(declare-fun any_nil () Any)\n")
+		b.WriteString("(declare-datatypes ((Ref 0)) (((nil_ref) (mk_ref (ref_id Int)))))\n(define-sort Str () String)\n(declare-datatypes ((Fn 0)) (((nil_fn) (mk_fn (fn_id Int)))))\n(declare-datatypes ((Flt 0)) (((flt_zero) (mk_flt (flt_id Int)))))\n(declare-datatypes ((Any 0)) (((any_nil) (mk_any (any_id Int)))))\n")
+		b.WriteString("(define-fun str_empty () Str \"\")\n")
 	} else {
-		b.WriteString("(declare-sort Ref 0)\n(declare-sort Str 0)\n(declare-sort Fn 0)\n(declare-sort Flt 0)\n(declare-sort Any 0)\n")
-		b.WriteString("(declare-fun nil_ref () Ref)\n(declare-fun nil_fn () Fn)\n(declare-fun str_empty () Str)\n(declare-fun any_nil () Any)\n")
+		// references, strings, function values and interface payloads are datatypes with a nullary
+		// constructor for nil / "" so that zero values are SMT value terms (cvc5 needs that for
+		// constant arrays) and string literals are distinct by construction
+		b.WriteString("(declare-datatypes ((Ref 0)) (((nil_ref) (mk_ref (ref_id Int)))))\n(declare-datatypes ((Str 0)) (((str_empty) (mk_str (str_id Int)))))\n(declare-datatypes ((Fn 0)) (((nil_fn) (mk_fn (fn_id Int)))))\n(declare-datatypes ((Flt 0)) (((flt_zero) (mk_flt (flt_id Int)))))\n(declare-datatypes ((Any 0)) (((any_nil) (mk_any (any_id Int)))))\n")
 	}
 	idx := s.idxSort()
 	fmt.Fprintf(&b, "(declare-datatypes ((Slice 0)) (((mk_slice (sl_ptr Ref) (sl_off %s) (sl_len %s) (sl_cap %s)))))\n", idx, idx, idx)
@@ -369,22 +370,15 @@ func (s *Script) header() string {
 		return b.String()
 	}
 	// string literal constants: pairwise distinct, known lengths
-	var names []string
-	for _, lit := range s.strOrder {
+	for i, lit := range s.strOrder {
 		t := s.strConsts[lit]
 		if lit != "" {
-			fmt.Fprintf(&b, "(declare-fun %s () Str)\n", t.S)
+			fmt.Fprintf(&b, "(define-fun %s () Str (mk_str %d))\n", t.S, i+1)
 		}
-		names = append(names, t.S)
 		fmt.Fprintf(&b, "(assert (= (strlen %s) %s))\n", t.S, s.idxLit(int64(len(lit))).S)
 	}
 	if _, ok := s.strConsts[""]; !ok {
-		names = append(names, "str_empty")
 		fmt.Fprintf(&b, "(assert (= (strlen str_empty) %s))\n", s.idxLit(0).S)
-	}
-	if len(names) > 1 {
-		sort.Strings(names)
-		fmt.Fprintf(&b, "(assert (distinct %s))\n", strings.Join(names, " "))
 	}
 	for _, a := range s.axioms {
 		b.WriteString(a)
